@@ -497,6 +497,22 @@ fn c01_like(tier: Tier, oracles: Oracles, with_drop: bool) -> Vec<Scenario> {
         let sc = Scenario::new("utf8-text-owned-strings", Cfg { owned_args: true, ..Cfg::default() }, vec![], Box::new(acts), if q { 3 } else { 4 }, oracles);
         out.push(sc);
     }
+    // commits that fail at one of their I/O calls (the first ones: reserving space for a growing
+    // file, mapping it, the data writes and syncs, the header write) followed by ordinary commits to
+    // another bucket on the same handle
+    {
+        let setup_ops = vec![OpSpec::bucket("create", &[], "x"), OpSpec::bucket("create", &[], "y"), OpSpec::put(&["x"], "a", "v*40"), OpSpec::put(&["y"], "a", "v*40")];
+        let big = vec![OpSpec::put(&["x"], "big", "L*5000"), OpSpec::del(&["x"], "a"), OpSpec::put(&["x"], "b", "w*300")];
+        let mut acts: Vec<Action> = vec![Action::Reopen];
+        for k in 0..9u64 {
+            acts.push(Action::TxFail { ops: big.clone(), call: 2000 + k });
+        }
+        acts.push(tx(vec![OpSpec::put(&["y"], "k1", "w*300")]));
+        acts.push(tx(vec![OpSpec::put(&["y"], "k2", "x*1500"), OpSpec::del(&["y"], "a")]));
+        acts.push(tx(big.clone()));
+        let sc = Scenario::new("failed-commits-then-commits-elsewhere", Cfg { num_pages: 8, ..Cfg::default() }, vec![tx(setup_ops)], Box::new(acts), if q { 3 } else { 4 }, oracles);
+        out.push(sc);
+    }
     // leaves that cannot be split (four entries or fewer) and span several pages because of one
     // oversized value, while also holding the entries of nested buckets (which have trees of their own)
     {
